@@ -302,6 +302,20 @@ func c20CheckStorage(w *World, res *CaseResult) error {
 			if err := expectReject(ps2, len(rootIDs), fmt.Sprintf("referenced slab %s (%s) removed through the storage API (uncommitted)", id, kind)); err != nil {
 				return err
 			}
+			// the all-child-references query must see the pending deletion as a broken reference
+			for _, rid := range rootIDs {
+				refs, broken, err := ps2.GetAllChildReferences(rid)
+				if err != nil {
+					return viol("childrefs", "GetAllChildReferences(%s) with a pending deletion failed: %v", rid, err)
+				}
+				wantRefs, wantBroken := g.reachableFrom(rid, r1)
+				if !idsEqual(refs, wantRefs) || !idsEqual(broken, wantBroken) {
+					return viol("childrefs", "after removing %s through the storage API (uncommitted): GetAllChildReferences(%s) = (%d refs, broken %v), independent walk finds (%d, %v)", id, rid, len(refs), sortIDs(broken), len(wantRefs), sortIDs(wantBroken))
+				}
+				if len(wantBroken) > 0 {
+					obs["childrefs-broken-found-pending-deletion"]++
+				}
+			}
 			// ... and committed
 			led.inCommit = true
 			if err := ps2.FastCommit(2); err != nil {
@@ -684,6 +698,60 @@ func runC17(c *CaseCtx) *CaseResult {
 				if err := w.diverge(w.roots[0], w.roots[1], 6); err != nil {
 					return fail(err)
 				}
+			}
+		}
+		// mini streams: 2-14 elements whose sizes are drawn from {tiny, 40 bytes, half limit, limit-1, limit}: the tail of
+		// such streams regularly leaves an underfull last slab next to a sibling that cannot lend (merge arm of the
+		// close-out), also at the index-slab level when prefixed with filler
+		minis := 80
+		if c.Tier == "thorough" {
+			minis = 600
+		}
+		lim := int(th.MaxInlineArrayElementSize)
+		sizes := []int{3, 40, lim / 2, lim - 1, lim, lim / 3}
+		for b := 0; b < minis; b++ {
+			n := 2 + r.Intn(13)
+			var stream []*Node
+			if b%5 == 4 {
+				// filler so that the tail sits at the end of a multi-level tree
+				for i := 0; i < 30+r.Intn(120); i++ {
+					stream = append(stream, &Node{Kind: KStr, S: w.strOfByteSize(lim/2 + r.Intn(4))})
+				}
+			}
+			for i := 0; i < n; i++ {
+				sz := sizes[r.Intn(len(sizes))]
+				if sz <= 3 {
+					stream = append(stream, &Node{Kind: KU8, U: uint64(i)})
+				} else {
+					stream = append(stream, &Node{Kind: KStr, S: w.strOfByteSize(sz)})
+				}
+			}
+			w.logOp("batch-build mini stream of %d elements", len(stream))
+			i := 0
+			ti := w.newTI(false)
+			arr, err := atree.NewArrayFromBatchData(w.st, w.addr, ti, func() (atree.Value, error) {
+				if i == len(stream) {
+					return nil, nil
+				}
+				v := scalarValue(stream[i])
+				i++
+				return v, nil
+			})
+			if err != nil {
+				return fail(viol("bulk-build", "NewArrayFromBatchData(mini stream of %d) failed: %v", len(stream), err))
+			}
+			w.nextNID++
+			n2 := &Node{Kind: KArr, TI: ti, Arr: arr, VID: arr.ValueID(), Addr: w.addr, nid: w.nextNID, Elems: stream}
+			w.AddRoot(n2)
+			if err := w.CheckTree(true); err != nil {
+				return fail(err)
+			}
+			if err := w.CheckDeep(); err != nil {
+				return fail(err)
+			}
+			res.Obs["batch-mini-streams"]++
+			if err := w.diverge(n2, nil, 0); err != nil {
+				return fail(err)
 			}
 		}
 	case 1: // NewMapFromBatchData from a source map
@@ -1094,7 +1162,7 @@ func init() {
 			"Corrupted side, for EVERY slab (sampled to 70 when larger, keeping every reference kind): (1) delete a referenced slab - at ledger level + fresh storage, through the storage API uncommitted, and committed; (2) add an unreferenced copy / a fresh large-value slab with the expected root count unchanged - ledger level and API; (3) duplicate a referencing register so its children have two parents (root count unchecked), and patch a parent so that two of its own references point at the same child (displaced child left behind / removed); (4) move a referenced child to a foreign owner address and patch the 16-byte reference. Every corruption must be rejected; broken-reference lists must equal the deleted ids that are reachable. " +
 			"non-trivial = >3 deletions, a double reference and a foreign-owner corruption were applied and an index->child reference was among the kinds; distinct by hash(config, operation list)",
 		Assumptions: []string{"corruptions are single-slab; index->child references are not byte-patchable for kind (4) (the address is stored once per index slab) and are covered by kinds (1)-(3)"},
-		Mandatory:   []string{"healthy-storages-accepted", "corruptions-rejected", "deletions-tried", "additions-tried", "double-references-tried", "same-parent-double-references-tried", "foreign-owner-tried", "childrefs-queries", "childrefs-broken-found", "warm-pending-health-checks", "kind:index->child", "kind:element", "kind:group->collision-slab", "kind:wrapper->element"},
+		Mandatory:   []string{"healthy-storages-accepted", "corruptions-rejected", "deletions-tried", "additions-tried", "double-references-tried", "same-parent-double-references-tried", "foreign-owner-tried", "childrefs-queries", "childrefs-broken-found", "childrefs-broken-found-pending-deletion", "warm-pending-health-checks", "kind:index->child", "kind:element", "kind:group->collision-slab", "kind:wrapper->element"},
 	})
 	register(&Prop{
 		ID: "C17", Level: "exploration", Run: runC17, Cases: cases(64, 320), MinNonTrivial: 8,
@@ -1102,6 +1170,6 @@ func init() {
 			"copy: matrix {array,map} x {plain, wrapped, large value, nested inlined, nested standalone, collision group, multi-slab} x {standalone, inlined source}: CanCopyNonRefSimple must equal (single slab AND all elements plain non-reference) computed from the model, an offered copy must succeed, a refused copy must return a copy error; bytes: ByteSliceToByteArray/ByteArrayToByteSlice round trips for lengths around the single-slab fast-path boundary x estimates {0,1,3,4,100}, foreign element => typed error. " +
 			"Every result is compared with the model (API deep compare + structural walk + in-repo verifier + byte-level sizes + reachability with both values as roots), then a divergence phase mutates one side with the other re-checked after each step, then one side is disposed of and the other must survive alone. non-trivial = divergence phase ran and (copy mode or a result spanning >=3 slabs); distinct by hash(config, operation list)",
 		Assumptions: []string{"batch-built maps are fed from a read-only iteration of the source (scalar/string keys and values)", "exploration, not proof"},
-		Mandatory:   []string{"batch-arrays-built", "batch-arrays-multi-slab", "batch-maps-built", "copies-made", "copies-of-inlined-sources", "byte-conversions", "byte-conversions-multi-slab", "divergence-phases"},
+		Mandatory:   []string{"batch-arrays-built", "batch-arrays-multi-slab", "batch-mini-streams", "batch-maps-built", "copies-made", "copies-of-inlined-sources", "byte-conversions", "byte-conversions-multi-slab", "divergence-phases"},
 	})
 }
